@@ -545,6 +545,16 @@ class Fn2(c2lean.Fn):
                 wshift.append(a.ptr)
             elif nm in callee.struct_fields:
                 # this function's own struct out-parameter handed on to the callee's struct out-parameter
+                if a.s and a.s in self.struct_fields and callee.struct_fields[nm] and \
+                        not getattr(callee, "struct_outs", {}).get(nm):
+                    # the callee only READS fields: hand it the values this function has stored in them so far
+                    for fld, fty in callee.struct_fields[nm]:
+                        key = f"{a.s}.{fld}"
+                        cur = env.outs.get(key)
+                        if cur is None or cur.startswith("?"):
+                            raise Unsupported(f"{cn} reads {key}, which this function has not (unconditionally) stored")
+                        texts.append(cur)
+                    continue
                 if not a.s or a.s not in self.struct_fields or callee.struct_fields[nm]:
                     raise Unsupported(f"struct argument in a call to {cn}")
                 if nm in getattr(callee, "given", []):
@@ -1683,6 +1693,12 @@ TARGETS2 = {
         ("varintDelta.c", "varintDeltaDecode", "deltaDecode"),
         ("varintDelta.c", "varintDeltaEncodeUnsigned", "deltaEncodeUnsigned"),
         ("varintDelta.c", "varintDeltaDecodeUnsigned", "deltaDecodeUnsigned"),
+    ],
+    "CFOR": [
+        ("import", "CTagged", "varintTagged.c:varintTaggedLen:taggedLen:legacy"),
+        ("import", "CSizes", "varintFOR.c:varintFORSize:forSize:legacy"),
+        ("varintFOR.c", "varintFORComputeWidth", "forComputeWidth"),
+        ("varintFOR.c", "varintFORAnalyze", "forAnalyze"),
     ],
     "CAdaptive": [
         ("varintAdaptive.c", "varintAdaptiveCheckSorted", "adaptiveCheckSorted"),
